@@ -105,6 +105,46 @@ pub struct Eta {
     e: i32,
 }
 
+// ---- two types of one shared file importing different names from one and the same other shared file
+#[derive(TS)]
+#[ts(export_to = "sub/leaves.ts")]
+pub struct LeafA {
+    a: i32,
+}
+
+#[derive(TS)]
+#[ts(export_to = "sub/leaves.ts")]
+pub struct LeafB {
+    b: i32,
+}
+
+#[derive(TS)]
+#[ts(export_to = "sub/leaves.ts")]
+pub struct LeafC {
+    c: Option<Box<LeafA>>,
+}
+
+#[derive(TS)]
+#[ts(export_to = "shared.ts")]
+pub struct AlA {
+    a: LeafA,
+}
+
+#[derive(TS)]
+#[ts(export_to = "shared.ts")]
+pub struct AlB {
+    b: LeafB,
+    c: Vec<LeafC>,
+}
+
+#[derive(TS)]
+#[ts(export_to = "shared.ts")]
+pub struct AlC {
+    a: LeafA,
+    b: LeafB,
+    leaf: Leaf,
+}
+
 // ---- one type per file, in sub directories, depending on each other ---------------------------
 #[derive(TS)]
 #[ts(export_to = "sub/")]
@@ -234,6 +274,12 @@ pub fn entries() -> Vec<Entry> {
         entry!("Beta", Beta),
         entry!("alpha2", alpha2),
         entry!("Gamma", Gamma),
+        entry!("LeafA", LeafA),
+        entry!("LeafB", LeafB),
+        entry!("LeafC", LeafC),
+        entry!("AlA", AlA),
+        entry!("AlB", AlB),
+        entry!("AlC", AlC),
         entry!("Eta", Eta),
         entry!("Delta", Delta),
         entry!("Zeta", Zeta),
